@@ -7,9 +7,10 @@ Variable find : nat -> nat -> target.
 Variable codec_ok : N -> bool.
 Variable decodable : N -> nat -> bool.
 Variable handler : nat -> nat -> nat -> hres.
+Variable hmeta : nat -> nat -> nat -> list (nat * nat).
 
-Notation serve := (serve find codec_ok decodable handler).
-Notation handle_with_precall := (handle_with_precall find codec_ok decodable handler).
+Notation serve := (serve find codec_ok decodable handler hmeta).
+Notation handle_with_precall := (handle_with_precall find codec_ok decodable handler hmeta).
 
 Definition is_result (o : ioutcome) : bool := match o with IResult _ => true | _ => false end.
 
@@ -93,7 +94,7 @@ Theorem http_ingress_equals_native ing c rq :
   o_out (serve ing c rq) = o_out (serve Native c rq) /\ o_invoked (serve ing c rq) = o_invoked (serve Native c rq).
 Proof.
   intros Hi Hrej Hhb How Hr. unfold rejected in Hrej.
-  assert (E : serve ing c rq = http_like find codec_ok decodable handler c rq).
+  assert (E : serve ing c rq = http_like find codec_ok decodable handler hmeta c rq).
   { destruct ing; [congruence|reflexivity|]. cbn [Ingress.serve]. rewrite How. reflexivity. }
   rewrite E. clear E. cbn [Ingress.serve]. unfold http_like, native.
   apply orb_false_iff in Hrej. destruct Hrej as [Hrej Hpc].
